@@ -26,6 +26,7 @@ fn main() {
         "c04" => c04::run(tier),
         "c05" => c05::run(tier),
         "c06" => c06::run(tier),
+        "c06one" => c06::debug_one(),
         "c07" => c07::run(tier),
         "c08" => c08::run(tier),
         "c09" => c09::run(tier),
